@@ -86,9 +86,15 @@ TIER_INTERP = {'quick': ['text_args_int_values', 'int_args_text_values'],
                'thorough': list(INTERP)}
 
 
+_mod = []
+
+
 def _Classes():
-  from harness import impl
-  m = impl.Mods()['sqlite3_logica']
+  if not _mod:
+    common.UseRepo()      # the repo's own top-level package is called `common`
+    import importlib
+    _mod.append(importlib.import_module('common.sqlite3_logica'))
+  m = _mod[0]
   return {'ArgMin': m.ArgMin, 'ArgMax': m.ArgMax,
           'Distinct': m.DistinctListAgg, 'Concat': m.ArrayConcatAgg}
 
@@ -201,7 +207,7 @@ def Replay(behaviours, interps, workers=None, per_behaviour=None):
         # these only vary the arguments / shift the values
         iname = interps[j % 2]
       jobs.append((len(jobs), b, iname))
-  chunks = [jobs[i:i + 500] for i in range(0, len(jobs), 500)]
+  chunks = [jobs[i:i + 2000] for i in range(0, len(jobs), 2000)]
   out = common.ParallelMap(_ReplayChunk, chunks, workers=workers, chunksize=1)
   return [l for ch in out for l in ch]
 
